@@ -78,7 +78,11 @@ func (r *responseStorer) StoreResponse(
 		ReceivedAt:  respTime,
 		ID:          responseID,
 	}
-	_ = r.cache.Set(responseID, respEntry)
+	if err := r.cache.Set(responseID, respEntry); err != nil {
+		// Nothing was stored (e.g. the body could not be read completely): do
+		// not leave an index entry pointing at it.
+		return err
+	}
 
 	switch {
 	case refs == nil:
